@@ -8,7 +8,7 @@ ROOT = os.path.dirname(os.path.dirname(os.path.abspath(__file__)))
 # id -> (technique, level text, level note, design ref)
 CHECKS = {
  "C20": ("differential between two builds of the crate (default vs no_std) over generated corpora: transcript equality line by line",
-         "Texts, near-valid byte strings, instruction streams and model-defined programs + inputs from the generators of C13/C14/C06/C15/C01 are evaluated by the default build (in-process, executions fork-isolated) and by a second binary linking the crate with default features off (JIT from caller-supplied executable memory); assembler, verifier, disassembler, interpreter and JIT results must be identical. X lines carry stack-usage calculator and helper set and run on all four VM kinds; the no_std JIT memory is also placed near the helpers and on either side of the +-2^31 distances from them. Exploration.",
+         "Texts, near-valid byte strings, instruction streams and model-defined programs + inputs from the generators of C13/C14/C06/C15/C01 are evaluated by the default build (in-process, executions fork-isolated) and by a second binary linking the crate with default features off (JIT from caller-supplied executable memory); assembler, verifier, disassembler, interpreter and JIT results must be identical. X lines carry stack-usage calculator and helper set and run on all four VM kinds; the no_std JIT memory is also placed near the helpers and on either side of the +-2^31 distances from them. D lines also cover the near-valid byte strings of C06 (a panic is an answer like any other); R lines compile, run, re-bind every helper id to another function, compile again and run again on one VM object in both builds. Exploration.",
          "The no_std build is linked into a std binary; only the kind of an error is compared, never its message.",
          "DESIGN.md section 3, C20"),
  "C18": ("stress exploration with generated configurations (threads x engines x addends x iteration counts) and an invariant oracle over the final memory state",
@@ -16,27 +16,27 @@ CHECKS = {
          "Overlap of executions is made likely (barrier, K >= 10,000, oversubscription), not guaranteed; replay re-runs a configuration five times because schedules are not reproducible.",
          "DESIGN.md section 3, C18"),
  "C09": ("proptest over (VM kind, offset pairs, packet sequences, engine schedules) against an address oracle, one VM object driven through all three engines in a forked child",
-         "Probe programs expose r1, r10, stack usability, packet addressing and - for the fixed-metadata VM - the two stored pointers; the harness knows the real packet addresses and checks every execution of a generated schedule on interpreter, JIT and Cranelift. Load-free probes hand r1 to a registered helper that reads the context. Exploration.",
+         "Probe programs expose r1, r10, stack usability, packet addressing and - for the fixed-metadata VM - the two stored pointers; the harness knows the real packet addresses and checks every execution of a generated schedule on interpreter, JIT and Cranelift. Load-free probes hand r1 to a registered helper that reads the context. For the fixed-metadata VM the probe is re-loaded half way through the schedule with set_program() and another pair of offsets (swapped / partly moved / moved). Exploration.",
          "Empty-packet start pointer is not compared (only end - start == 0).",
          "DESIGN.md section 3, C09"),
  "C10": ("model-based (stateful) property testing: generated API-call histories checked step by step against an abstract VM state machine, fork-isolated",
-         "Histories of up to 30 calls over load / verify / configure / compile / execute on all four VM kinds; the abstract machine predicts Ok/Err and the value of every step, using the reference model for program results; stale compiled code and state changes by failed calls are detected at the first observation that differs. Histories without packet-reading programs also execute with the empty packet. Exploration.",
+         "Histories of up to 30 calls over load / verify / configure / compile / execute on all four VM kinds; the abstract machine predicts Ok/Err and the value of every step, using the reference model for program results; stale compiled code and state changes by failed calls are detected at the first observation that differs. Histories without packet-reading programs also execute with the empty packet. register_helper may bind an id to another function: after recompilation compiled code must call the new one. Exploration.",
          "The 'default' verifier re-installed through set_verifier is the harness's reference verifier (the crate does not export its own).",
          "DESIGN.md section 3, C10"),
  "C02": ("proptest + exhaustive boundary windows of single-access probes against an exact address oracle, fork-isolated with PROT_NONE guard pages and canary arenas",
-         "Each probe is one access instruction whose effective address sits at a generated distance (-9..+9) from a boundary of packet, metadata buffer, registered range or stack, or is null / top-of-address-space / wrapping / far; the child process knows the real addresses and decides allowed <=> inside exactly one region, then checks Ok + exact value / stored bytes, or Err + no byte changed. Thorough enumerates every (boundary, delta, kind, width) for fixed layouts. Probes may be preceded, in the same basic block, by a narrower access at the same address, by in-bounds loads through the same register at other offsets, or by an in-bounds access after which the base register is redefined (lddw, mov, add, stack reload, helper result, ldabs); layouts include ranges 1-7 bytes apart and a range covering all others in every registration order. Exploration (exhaustive within the windows in the thorough tier).",
+         "Each probe is one access instruction whose effective address sits at a generated distance (-9..+9) from a boundary of packet, metadata buffer, registered range or stack, or is null / top-of-address-space / wrapping / far; the child process knows the real addresses and decides allowed <=> inside exactly one region, then checks Ok + exact value / stored bytes, or Err + no byte changed. Thorough enumerates every (boundary, delta, kind, width) for fixed layouts. Probes may be preceded, in the same basic block, by a narrower access at the same address, by in-bounds loads through the same register at other offsets, or by an in-bounds access after which the base register is redefined (lddw, mov, add, stack reload, helper result, ldabs); layouts include ranges 1-7 bytes apart and a range covering all others in every registration order. Layouts also cover the raw and no-data VM structs and a registered range that encloses the packet; one probe in eight runs under an accept-all verifier and moves r10 just before the access. Exploration (exhaustive within the windows in the thorough tier).",
          "Stack boundaries are probed r10-relative; registered ranges are kept from touching other regions.",
          "DESIGN.md section 3, C02"),
  "C07": ("proptest over generated call graphs against the reference model's C07 semantics, on the interpreter (value and error clauses) and the JIT (value clauses)",
-         "Programs with 1-6 functions, forward/backward/long displacements, recursion bounded by a counter (depth 0-10), per-function callee-saved values, stack slots, r10 spills, helper calls with small ids, with and without a table-driven stack-usage calculator; every register/frame effect is folded into r0 and compared with the model. Calls in tail position (half of them self-recursive) and `callx +0` are generated. Exploration.",
+         "Programs with 1-6 functions, forward/backward/long displacements, recursion bounded by a counter (depth 0-10), per-function callee-saved values, stack slots, r10 spills, helper calls with small ids, with and without a table-driven stack-usage calculator; every register/frame effect is folded into r0 and compared with the model. Calls in tail position (half of them self-recursive) and `callx +0` are generated. All four VM kinds; half of the VMs are created empty, configured (helpers, calculator) first and loaded last. Exploration.",
          "Error clauses only on the interpreter (the JIT has no run-time error channel).",
          "DESIGN.md section 3, C07"),
  "C11": ("proptest + exhaustive boundary windows of single-access probes compiled with Cranelift, one forked child per probe, SIGILL-handler oracle",
-         "Same probe generator as C02 on the regions Cranelift knows; in bounds => exact value / stored bytes; out of bounds => the child must die in the trap (SIGILL) with every byte of the arenas unchanged (checked inside the signal handler); a normal return, SIGSEGV or changed byte is a violation. Probes may be preceded, in the same basic block, by a narrower access at the same address, by in-bounds loads through the same register at other offsets, or by an in-bounds access after which the base register is redefined (lddw, mov, add, stack reload, helper result, ldabs); packet and metadata buffer may be 1-7 bytes apart. Exploration (exhaustive within the windows in the thorough tier).",
+         "Same probe generator as C02 on the regions Cranelift knows; in bounds => exact value / stored bytes; out of bounds => the child must die in the trap (SIGILL) with every byte of the arenas unchanged (checked inside the signal handler); a normal return, SIGSEGV or changed byte is a violation. Probes may be preceded, in the same basic block, by a narrower access at the same address, by in-bounds loads through the same register at other offsets, or by an in-bounds access after which the base register is redefined (lddw, mov, add, stack reload, helper result, ldabs); packet and metadata buffer may be 1-7 bytes apart. Probes also run on the raw and no-data VM structs; one probe in eight is loaded under an accept-all verifier and moves r10 just before the access (the stack region does not move). Exploration (exhaustive within the windows in the thorough tier).",
          "A trap surfaces as SIGILL; guard pages turn performed out-of-region reads into faults.",
          "DESIGN.md section 3, C11"),
  "C05": ("proptest crash oracle over verifier-accepted near-valid byte strings and mutated structured programs, interpreted in a forked child under catch_unwind with an instruction budget; thorough tier adds a coverage-guided libFuzzer campaign (cargo-fuzz, ASan) with the same oracle inside the target",
-         "Acceptance by the real verifier is the premise; every accepted program runs on a random VM kind / packet / metadata / helper set; Ok, Err and budget exhaustion are fine, a panic, abort or fatal signal is a violation (signature = panic location). Thorough adds 30x the cases. Soup mutations include byte-identical neighbours. Exploration.",
+         "Acceptance by the real verifier is the premise; every accepted program runs on a random VM kind / packet / metadata / helper set; Ok, Err and budget exhaustion are fine, a panic, abort or fatal signal is a violation (signature = panic location). Thorough adds 30x the cases. Soup mutations include byte-identical neighbours. A third of the cases register one or two ranges of allowed memory; a quarter of the structured programs start with a legacy packet load whose valid effective address lies in another region. Exploration.",
          "Budget exhaustion stands for 'keeps running'; the child process isolates crashes.",
          "DESIGN.md section 3, C05"),
  "C12": ("proptest crash + repeatability oracle: jit_compile / cranelift_compile twice in a forked child under catch_unwind, byte-identical JIT output through hook H2; thorough tier adds a coverage-guided libFuzzer campaign (cargo-fuzz, ASan) with the same oracle inside the target",
@@ -44,19 +44,19 @@ CHECKS = {
          "rbpf's own emit bounds assertion (debug assertions on) and process death detect overruns of the sized buffer; Cranelift code is not compared byte for byte.",
          "DESIGN.md section 3, C12"),
  "C01": ("proptest differential against an independent reference interpreter with definedness tracking (model-based oracle), fork-isolated",
-         "Structured programs over every opcode, register, immediate class, control-flow shape, VM kind and input are executed by the interpreter in a forked child and compared (value or error class, and every packet / metadata byte) with a reference interpreter written from the ISA statement; runs that depend on undefined state are discarded and counted. Long programs (32k/65k/100k+ instructions) are a separate stream. A deterministic instruction matrix (every opcode x every register pair x boundary operands, ~108,000 single-instruction tests) and a pair matrix (all ordered pairs of ~70 instruction forms, second instruction entered in sequence / by jump / by local call) complement the random programs, as do the call graphs of C07. Exploration.",
+         "Structured programs over every opcode, register, immediate class, control-flow shape, VM kind and input are executed by the interpreter in a forked child and compared (value or error class, and every packet / metadata byte) with a reference interpreter written from the ISA statement; runs that depend on undefined state are discarded and counted. Long programs (32k/65k/100k+ instructions) are a separate stream. A deterministic instruction matrix (every opcode x every register pair x boundary operands, ~108,000 single-instruction tests) and a pair matrix (all ordered pairs of ~70 instruction forms, second instruction entered in sequence / by jump / by local call) complement the random programs, as do the call graphs of C07. Half of the VMs are created empty, configured first and loaded last. Exploration.",
          "Trusts harness/vrun/src/model.rs; known finding I2 (zero-extended jump immediates) is excluded by its exact signature and reported as KNOWN-FINDING.",
          "DESIGN.md sections 2.1, 2.2, 3 C01"),
  "C03": ("proptest differential JIT vs interpreter under a model-checked premise, fork-isolated with guard-page buffers at identical addresses",
-         "The reference model filters the premise (terminates, defined, in bounds); interpreter and x86-64 JIT then run in the same forked child from identical buffers and are compared on the return value and every byte of packet and metadata; compile errors, panics, traps and crashes of the JIT on such programs are violations. The instruction matrix and pair matrix of C01 (second instruction entered in sequence, by jump and by local call) run through the same differential; helper calls are checked for stack alignment. Exploration.",
+         "The reference model filters the premise (terminates, defined, in bounds); interpreter and x86-64 JIT then run in the same forked child from identical buffers and are compared on the return value and every byte of packet and metadata; compile errors, panics, traps and crashes of the JIT on such programs are violations. The instruction matrix and pair matrix of C01 (second instruction entered in sequence, by jump and by local call) run through the same differential; helper calls are checked for stack alignment. Half of the VMs are created empty, configured first and loaded last. Exploration.",
          "Premise classification trusts the model; watchdog hits are inconclusive; known finding I2 excluded by signature.",
          "DESIGN.md section 3, C03"),
  "C04": ("proptest differential Cranelift vs interpreter under a model-checked premise, plus a refusal oracle for programs with local calls",
-         "Equivalence as for C03 with cranelift_compile / execute_program_cranelift on programs without local calls; programs with an eBPF-to-eBPF call (with and without a registered helper whose id equals the displacement) must make cranelift_compile return Err. The instruction matrix and pair matrix of C01 (second instruction entered in sequence and by jump) run through the same differential. Exploration.",
+         "Equivalence as for C03 with cranelift_compile / execute_program_cranelift on programs without local calls; programs with an eBPF-to-eBPF call (with and without a registered helper whose id equals the displacement) must make cranelift_compile return Err. The instruction matrix and pair matrix of C01 (second instruction entered in sequence and by jump) run through the same differential. Half of the VMs are created empty, configured first and loaded last. Exploration.",
          "Premise classification trusts the model; Cranelift compile time bounds the case count; known finding I2 excluded by signature.",
          "DESIGN.md section 3, C04"),
  "C08": ("proptest with instrumented helpers (assembly entry stubs recording rsp, shared-memory call log) against the reference model's call sequence, on all three engines",
-         "Generated programs with 1-4 call sites at local-call depth 0-3, boundary helper ids, registered and unregistered, junk in unused call fields; the observed log (which function, how often, argument order), stack alignment at entry, result and preserved registers are compared with the model; unregistered ids must be a run-time Err (interpreter, only if reached) or a compile-time Err (both compilers). Exploration.",
+         "Generated programs with 1-4 call sites at local-call depth 0-3, boundary helper ids, registered and unregistered, junk in unused call fields; the observed log (which function, how often, argument order), stack alignment at entry, result and preserved registers are compared with the model; unregistered ids must be a run-time Err (interpreter, only if reached) or a compile-time Err (both compilers). All four VM kinds; helpers are registered in an order that is a function of the case; half of the VMs are created empty, configured first and loaded last. Exploration.",
          "Alignment is read from rsp captured by a two-instruction assembly stub in front of each helper; Rust-ABI == C-ABI for five u64 arguments on x86-64.",
          "DESIGN.md section 3, C08"),
  "C06": ("proptest differential against an independent reference verifier over near-valid byte strings (both directions: false accepts and false rejects); thorough tier adds a coverage-guided libFuzzer campaign (cargo-fuzz, ASan) with the same oracle inside the target",
@@ -72,19 +72,19 @@ CHECKS = {
          "A panic must unwind to be observed (harness built with panic=unwind); time bound is a 20 s per-call watchdog reported as inconclusive.",
          "DESIGN.md section 3, C14"),
  "C15": ("proptest validity predicate: disassembler output vs independent decoder, mnemonic table and a parser of the assembler syntax; thorough tier adds a coverage-guided libFuzzer campaign (cargo-fuzz, ASan) with the same oracle inside the target",
-         "Instruction streams over every opcode, all register nibbles, extreme offsets and immediates are disassembled; each entry's fields, merged immediate, name and parsed text are compared with the reference decoding (thorough: every opcode x all 65536 offsets enumerated). Long programs of up to 2^17 slots (2^19 thorough) with wide loads on every kind of position, and the captured stdout of disassemble(), go through the same oracle. Exploration.",
+         "Instruction streams over every opcode, all register nibbles, extreme offsets and immediates are disassembled; each entry's fields, merged immediate, name and parsed text are compared with the reference decoding (thorough: every opcode x all 65536 offsets enumerated). Long programs of up to 2^17 slots (2^19 thorough) with wide loads on every kind of position, and the captured stdout of disassemble(), go through the same oracle. A byte swap of a width the assembler cannot express must not print as a valid one. Exploration.",
          "Trusts the reference decoder and mnemonic table in isa.rs and the desc parser in asmref.rs; cosmetic text differences are tolerated by design.",
          "DESIGN.md section 3, C15"),
  "C16": ("proptest round trip disassemble -> assemble, with a canonical-form oracle for non-expressible programs; thorough tier adds a coverage-guided libFuzzer campaign (cargo-fuzz, ASan) with the same oracle inside the target",
-         "Expressible canonical programs must round-trip exactly; for any other program an accepted text must assemble to the canonical form. Both the joined to_insn_vec texts and the captured stdout of disassemble() are round-tripped, for short streams and for long programs of up to 2^17 slots. Exploration.",
+         "Expressible canonical programs must round-trip exactly; for any other program an accepted text must assemble to the canonical form. Both the joined to_insn_vec texts and the captured stdout of disassemble() are round-tripped, for short streams and for long programs of up to 2^17 slots. Non-canonical streams put junk in every unused field, the opcode byte of a wide load's second slot included. Exploration.",
          "Canonical form is defined by the used-field table in isa.rs.",
          "DESIGN.md section 3, C16"),
  "C19": ("proptest against closed-form oracles (formula, exact integer square root, XOR involution with canaries, captured stdout byte count, range predicate)",
-         "Each built-in helper is called on boundary-heavy argument tuples and compared with an independent statement of its documented function; pointer helpers run on canary-surrounded buffers; bpf_trace_printf's output is captured through a pipe on fd 1. strcmp / memfrob also run, fork-isolated, on buffers placed 0-2000 bytes before the end of a page followed by a differently filled or inaccessible page; sqrti arguments combine perfect-square and rounding-tie boundaries. Exploration.",
+         "Each built-in helper is called on boundary-heavy argument tuples and compared with an independent statement of its documented function; pointer helpers run on canary-surrounded buffers; bpf_trace_printf's output is captured through a pipe on fd 1. strcmp / memfrob also run, fork-isolated, on buffers placed 0-2000 bytes before the end of a page followed by a differently filled or inaccessible page; sqrti arguments combine perfect-square and rounding-tie boundaries. The arguments a helper does not use take small numbers, boundary values and hashes. Exploration.",
          "Pointer preconditions are respected by construction; println! is assumed to write to fd 1.",
          "DESIGN.md section 3, C19"),
  "C17": ("exhaustive per-field enumeration + proptest round trip / differential against an independent encoder, Insn encoder, builder and assembler",
-         "Exhaustive enumeration of each field (256x256 opcode/register bytes, all 65536 offsets, boundary immediates in quick and all 2^32 immediates in thorough) plus generated full slots at random program indices and generated builder-call chains, each compared with an independent reference encoder/decoder and cross-checked between Insn::to_array/to_vec, insn_builder and assemble(). Exhaustive per field, sampled for field combinations: exploration level. All 256 x 256 adjacent opcode pairs and programs with lengths around 2^16, 10^6 and 2^20 slots go through ebpf::to_insn_vec at every index.",
+         "Exhaustive enumeration of each field (256x256 opcode/register bytes, all 65536 offsets, boundary immediates in quick and all 2^32 immediates in thorough) plus generated full slots at random program indices and generated builder-call chains, each compared with an independent reference encoder/decoder and cross-checked between Insn::to_array/to_vec, insn_builder and assemble(). Exhaustive per field, sampled for field combinations: exploration level. All 256 x 256 adjacent opcode pairs and programs with lengths around 2^16, 10^6 and 2^20 slots go through ebpf::to_insn_vec at every index. The bytes `(&instruction).into_bytes()` returns without pushing are compared as well.",
          "Trusts the 20-line reference encoder in harness/vrun/src/isa.rs; builder constructors that denote no instruction are excluded.",
          "DESIGN.md section 3, C17"),
 }
